@@ -110,6 +110,121 @@ def _chain(fi):
     return out
 
 
+def _context_manager_pairs(prog, rep, inventory):
+    """Save / override in ``K.__enter__`` and restore in ``K.__exit__`` of a context-manager class, the saved value
+    living in an instance attribute.  Python runs __exit__ on every exit of the with-body (return, exception, break),
+    so the typestate obligation becomes: (a) __enter__ saves before it overrides and nothing after the override can
+    raise inside __enter__; (b) __exit__ restores from the saved attribute on every path before anything that can
+    raise; (c) the saved attribute is written nowhere else; (d) every instance is entered only by ``with``."""
+    handled = set()
+    by_cls = {}
+    for (qual, g) in inventory:
+        fi = prog.functions[qual]
+        if fi.cls is not None and fi.name in ("__enter__", "__exit__"):
+            by_cls.setdefault((fi.cls.name, g), {})[fi.name] = fi
+    for (cname, g), ms in sorted(by_cls.items()):
+        C = prog.cls(cname)
+        construct = f"{cname}:{g}"
+        if "__enter__" not in ms:
+            continue
+        ent = ms["__enter__"]
+        ext = C.methods.get("__exit__")
+        aliases = prog.func_aliases(ent)
+        self_e = ent.node.args.args[0].arg
+
+        def reads_global(v, al):
+            return isinstance(v, ast.Attribute) and dotted(v) and resolve_dotted(dotted(v), al) == g
+
+        # (a) straight-line __enter__: self.A = <global> ... <global> = override
+        saves, overrides = [], []
+        for i, st in enumerate(ent.node.body):
+            if isinstance(st, ast.Assign) and len(st.targets) == 1:
+                t = st.targets[0]
+                if isinstance(t, ast.Attribute) and isinstance(t.value, ast.Name) and t.value.id == self_e and reads_global(st.value, aliases):
+                    saves.append((i, t.attr))
+                elif isinstance(t, ast.Attribute) and dotted(t) and resolve_dotted(dotted(t), aliases) == g:
+                    overrides.append((i, st))
+        handled.add((ent.qual, g))
+        if ext is not None:
+            handled.add((ext.qual, g))
+        if not saves:
+            rep.ob("R20.2", construct, False, f"{g} is overridden in {cname}.__enter__ but its previous value is never saved on the instance: __exit__ cannot restore it", loc=ent.loc, detail="no-save")
+            continue
+        attr = saves[0][1]
+        nested_over = [n for n in walk_local(ent.node, include_self=False) if isinstance(n, ast.Assign) and any(isinstance(t, ast.Attribute) and dotted(t) and resolve_dotted(dotted(t), aliases) == g for t in n.targets)]
+        if len(nested_over) != len(overrides):
+            rep.undecided(f"{construct}: __enter__ overrides {g} inside a nested block; only straight-line enter bodies are recognised")
+            continue
+        ok = bool(overrides) and all(i > saves[0][0] for i, _ in overrides)
+        rep.ob("R20.2", construct, ok, f"__enter__ saves the previous {g} in self.{attr} before overriding it" if ok else f"__enter__ overrides {g} before saving its previous value in self.{attr}", loc=ent.loc, detail="save-before-override")
+        # nothing that can raise after the override (an exception in __enter__ skips __exit__)
+        last = max(i for i, _ in overrides) if overrides else -1
+        tail = ent.node.body[last + 1:]
+        risky = [st for st in tail if any(isinstance(x, (ast.Call, ast.Raise, ast.Subscript, ast.BinOp, ast.Await)) for x in ast.walk(st))]
+        rep.ob("R20.2", construct, not risky, "nothing after the override inside __enter__ can raise (an exception there would skip __exit__)" if not risky else f"`{src(risky[0])[:60]}` runs after the override inside __enter__ and may raise: __exit__ is then never called and {g} stays overridden", loc=f"{ent.module.rel}:{(risky[0].lineno if risky else ent.node.lineno)}", detail="enter-tail")
+        # (b) __exit__ restores first
+        if ext is None:
+            rep.ob("R20.2", construct, False, f"{cname} has no __exit__: {g} is never restored", loc=C.loc, detail="restore-on-all-exits")
+            continue
+        al2 = prog.func_aliases(ext)
+        self_x = ext.node.args.args[0].arg
+
+        def is_restore_stmt(st):
+            return (isinstance(st, ast.Assign) and len(st.targets) == 1 and isinstance(st.targets[0], ast.Attribute) and dotted(st.targets[0])
+                    and resolve_dotted(dotted(st.targets[0]), al2) == g and src(st.value) == f"{self_x}.{attr}")
+
+        def transfer(node, facts):
+            f = set(facts)
+            if is_restore_stmt(node):
+                f.add("restored")
+            elif isinstance(node, ast.Assign) and any(isinstance(t, ast.Attribute) and dotted(t) and resolve_dotted(dotted(t), al2) == g for t in node.targets):
+                f.discard("restored")
+            return frozenset(f)
+
+        def may_raise(node):
+            if isinstance(node, (ast.FunctionDef, ast.Lambda, ast.ClassDef)) or is_restore_stmt(node):
+                return False
+            return any(isinstance(x, (ast.Call, ast.Raise, ast.Yield, ast.YieldFrom, ast.Await, ast.Subscript, ast.BinOp)) for x in ast.walk(node))
+
+        exits, _ma = analyze(ext.node.body, transfer, frozenset(), may_raise, implicit="before")
+        bad = [(k, n) for k, n, f in exits if "restored" not in f]
+        rep.ob("R20.2", construct, not bad,
+               f"{cname}.__exit__ re-installs self.{attr} as {g} on all {len(exits)} of its exits; Python calls __exit__ on every exit of the with-body" if not bad else
+               f"{cname}.__exit__ can be left by {bad[0][0]} at line {bad[0][1].lineno if bad[0][1] is not None else '?'} without re-installing self.{attr} as {g}: the override outlives the with-block",
+               loc=f"{ext.module.rel}:{bad[0][1].lineno}" if bad and bad[0][1] is not None else ext.loc, detail="restore-on-all-exits", extra={"exits": len(exits), "unprotected": len(bad)})
+        rep.ob("R20.2", construct, True, f"restore site: {cname}.__exit__ writes {g} from self.{attr}", loc=ext.loc, detail="has-restore", trivial=True)
+        # (c) the saved attribute is written only by __init__ (a constant) and __enter__
+        stray = []
+        for m in C.methods.values():
+            for n in walk_local(m.node, include_self=False):
+                if isinstance(n, (ast.Assign, ast.AugAssign, ast.AnnAssign)):
+                    tg = n.targets if isinstance(n, ast.Assign) else [n.target]
+                    for t in tg:
+                        if isinstance(t, ast.Attribute) and t.attr == attr and isinstance(t.value, ast.Name) and t.value.id == m.node.args.args[0].arg:
+                            if m.name == "__enter__" and reads_global(getattr(n, "value", None), aliases):
+                                continue
+                            if m.name == "__init__" and isinstance(getattr(n, "value", None), ast.Constant):
+                                continue
+                            stray.append((m, n))
+        rep.ob("R20.2", construct, not stray, f"self.{attr} is written only by the save in __enter__" if not stray else f"self.{attr} is also written in {stray[0][0].name} (`{src(stray[0][1])[:50]}`): the restore may not install the original", loc=f"{C.module.rel}:{stray[0][1].lineno}" if stray else C.loc, detail="save-reassigned")
+        # (d) instances are entered only through `with`
+        uses = 0
+        for fi in prog.functions.values():
+            inst = {nm for nm, vals in local_assignments(fi.node).items() if any(isinstance(v, ast.Call) and dotted(v.func) == cname for v in vals)}
+            for n in walk_local(fi.node, include_self=False):
+                if isinstance(n, ast.Call) and dotted(n.func) == cname:
+                    par = getattr(n, "_parent", None)
+                    if isinstance(par, ast.withitem) or (isinstance(par, ast.Assign) and len(par.targets) == 1 and isinstance(par.targets[0], ast.Name)):
+                        uses += 1
+                    else:
+                        rep.undecided(f"{construct}: instance created at {fi.module.rel}:{n.lineno} is not bound to a local name or used directly in `with`")
+                if isinstance(n, ast.Call) and isinstance(n.func, ast.Attribute) and n.func.attr in ("__enter__", "__exit__") and isinstance(n.func.value, ast.Name) and n.func.value.id in inst:
+                    rep.ob("R20.2", construct, False, f"{fi.name} calls {src(n.func)} by hand: the exit is no longer guaranteed by the with statement", loc=f"{fi.module.rel}:{n.lineno}", detail="manual-enter")
+        if uses == 0:
+            rep.undecided(f"{construct}: no use of the context manager found")
+    return handled
+
+
 def check(prog, rep):
     # ------------------------------------------------------------------ R20.1 inventory
     inventory = {}
@@ -128,7 +243,10 @@ def check(prog, rep):
            + ", ".join(f"{q.split(':')[1]}:{g}" for (q, g) in sorted(inventory)), trivial=True, detail="inventory")
 
     # ------------------------------------------------------------------ R20.2 typestate
+    handled = _context_manager_pairs(prog, rep, inventory)
     for (qual, g), sites in sorted(inventory.items()):
+        if (qual, g) in handled:
+            continue
         fi = prog.functions[qual]
         aliases = prog.func_aliases(fi)
         assigns = local_assignments(fi.node)
